@@ -26,7 +26,7 @@ SWITCHES = list(itertools.product((True, False), repeat=3))  # headers, inputs, 
 NUM = re.compile(r"^-?\d+\.\d+$|^nan$|^-?inf$")
 
 
-def build(n: int, disabled_last: bool = False):
+def build(n: int, disabled_last: bool = False, descending: bool = False):
     inputs = []
     for k in range(n):
         lo, hi = RANGES[k]
@@ -44,6 +44,9 @@ def build(n: int, disabled_last: bool = False):
     rules = [f"if {ante_lo} then o1 is a", f"if {ante_hi} then o1 is b and o2 is b", "if i1 is mid then o1 is c and o2 is a"]
     rb = fl.RuleBlock("rb", conjunction=fl.AlgebraicProduct(), disjunction=fl.Maximum(), implication=fl.Minimum(),
                       activation=fl.General(), rules=[fl.Rule.create(r) for r in rules])
+    if descending:
+        for iv in inputs[::2]:  # every other input runs from a larger minimum down to a smaller maximum
+            iv.minimum, iv.maximum = iv.maximum, iv.minimum
     if disabled_last:
         inputs[-1].enabled = False  # a disabled input variable is still a column of the grid
         out2.enabled = False        # ... and a disabled output variable still a column of the table (its value stays nan)
@@ -63,6 +66,7 @@ def plan(tier: str, seed: int):
             shards.append(("scope", n, part, 8))
     shards += [("reader", 2, p, 4) for p in range(4)]
     shards += [("scope-disabled", n, p, 2) for n in (2, 3) for p in range(2)]
+    shards += [("scope-descending", n, p, 2) for n in (1, 2, 3) for p in range(2)]
     return shards
 
 
@@ -139,7 +143,8 @@ def run_scope(acc: Acc, engine, oracle: Oracle, n: int, v: int, scope: str, comb
             continue  # no column selected: nothing to tabulate, nothing demanded
         case = {"inputs_n": n, "values": v, "scope": scope, "headers": headers, "input_values": inputs,
                 "output_values": outputs, "separator": sep, "decimals": d,
-                "disabled_last_input": not engine.input_variables[-1].enabled}
+                "disabled_last_input": not engine.input_variables[-1].enabled,
+                "descending": engine.input_variables[0].minimum > engine.input_variables[0].maximum}
         acc.case((n, v, scope, headers, inputs, outputs, sep, d), nontrivial=len(rows) > 1)
         acc.transitions += 1
         exporter = fl.FldExporter(separator=sep, headers=headers, input_values=inputs, output_values=outputs)
@@ -216,9 +221,15 @@ def run_shard(tier: str, seed: int, shard):
     kind, n, part, parts = shard
     acc = Acc(ID)
     reset_settings()
-    engine = build(n, disabled_last=(kind == "scope-disabled"))
+    engine = build(n, disabled_last=(kind == "scope-disabled"), descending=(kind == "scope-descending"))
     oracle = Oracle(engine)
-    if kind == "scope-disabled":
+    if kind == "scope-descending":
+        jobs = [(v, "AllVariables") for v in range(1, 70 if tier == "quick" else 300)] + [(v, "EachVariable") for v in range(1, 8 if tier == "quick" else 12)]
+        for idx, (v, scope) in enumerate(jobs):
+            if idx % parts == part:
+                acc.guard({"inputs_n": n, "values": v, "scope": scope, "descending": True}, run_scope, acc, engine, oracle, n, v, scope, combos_for(v, idx)[:1])
+                acc.cls("descending_ranges")
+    elif kind == "scope-disabled":
         for idx, v in enumerate(range(1, 70 if tier == "quick" else 300)):
             if idx % parts == part:
                 acc.guard({"inputs_n": n, "values": v, "scope": "AllVariables", "disabled_last_input": True}, run_scope, acc, engine,
@@ -254,7 +265,8 @@ def summarize(tier: str, seed: int, merged: dict) -> dict:
         "rule": (
             f"engines with 1..4 inputs; AllVariables: every v in 1..{limits(tier, 1)[0]}; EachVariable: v up to "
             f"{[limits(tier, n)[1] for n in (1, 2, 3, 4)]} for 1..4 inputs; all 8 switch x 4 separator x 3 decimals "
-            "combinations for v <= 12, the default plus one rotating combination above; reader: all arrangements of <= 5 "
+            "combinations for v <= 12, the default plus one rotating combination above; also with a disabled last input / output and with "
+            "descending ranges (minimum > maximum) on every other input; reader: all arrangements of <= 5 "
             f"lines over {READER_ALPHABET} x skip_lines 0..2. states = grid rows tabulated by the reference, transitions = "
             "exports compared, traces = reference tables computed by processing the engine row by row; non-trivial = "
             "more than one row"
@@ -276,7 +288,7 @@ def replay(case: dict):
         acc.guard(case, run_reader, acc, engine, Oracle(engine), tuple(syms), case["skip_lines"])
     else:
         n = case["inputs_n"]
-        engine = build(n, disabled_last=bool(case.get("disabled_last_input")))
+        engine = build(n, disabled_last=bool(case.get("disabled_last_input")), descending=bool(case.get("descending")))
         combo = [((case.get("headers", True), case.get("input_values", True), case.get("output_values", True)),
                   case.get("separator", " "), case.get("decimals", 3))]
         acc.guard(case, run_scope, acc, engine, Oracle(engine), n, case["values"], case["scope"], combo)
